@@ -38,13 +38,30 @@ class TakenNames:
     """The names in use in a Module, including those of the arrays, instance bundles and bundle instances which
     elaboration has dissolved into their elements. Supports the `in` operator only."""
 
-    def __init__(self, module: Module):
+    def __init__(self, module: Module, bundles: bool = True):
         self.module = module
+        # The names which the Module's bundle instances are yet to be flattened to: `<instance>_<member path>`.
+        # Names invented before then (for implicit nets, elements of pairs) leave those to them.
+        self.reserved = set()
+        if bundles:
+            for bundle_inst in module.bundles.values():
+                for path in _leaf_paths(bundle_inst.of):
+                    self.reserved.add("_".join([bundle_inst.name] + path))
 
     def __contains__(self, name: str) -> bool:
         if name in self.module.namespace or name in _banned_module_names:
             return True
+        if name in self.reserved:
+            return True
         return name in (getattr(self.module, "_dissolved_names", None) or ())
+
+
+def _leaf_paths(bundle_def: "Bundle") -> List[List[str]]:
+    """The member paths of all Signals of `bundle_def` and its sub-bundles"""
+    paths = [[name] for name in bundle_def.signals]
+    for name, sub in bundle_def.bundles.items():
+        paths.extend([name] + path for path in _leaf_paths(sub.of))
+    return paths
 
 
 class ElabPass:
